@@ -229,7 +229,7 @@ func genCall(r *rand.Rand) c19Call {
 		return c19Call{Desc: fmt.Sprintf("JSONBytes(%d, %q)", status, bs), Do: func(c *rux.Context) error { c.JSONBytes(status, bs); return nil }, Status: want, CT: ctJSON, Check: bodyIs(string(bs))}
 	case 6, 7:
 		v := genValue(r)
-		cb := pick(r, []string{"cb", "jQuery123_456", "a.b.c", "cbBad"})
+		cb := pick(r, []string{"cb", "jQuery123_456", "a.b.c", "cbBad", `window["cb_1"]`, `handlers['on-data']`, "a.b=c.d", "$cb", "ns.fn$2"}) // any reference a script can call, member access by bracket included
 		call := c19Call{Desc: fmt.Sprintf("JSONP(%d, %q, %s) preset-CT %q", status, cb, v.Desc, preset), Do: func(c *rux.Context) error { setPreset(c); c.JSONP(status, cb, v.V); return nil }, Status: want, CT: keepPreset(ctJSONP)}
 		if v.JSONOK {
 			call.Check = func(rec *Rec) (bool, string) {
@@ -519,7 +519,7 @@ func genCall(r *rand.Rand) c19Call {
 }
 
 func runC19(e *Env) {
-	e.Rule = "short histories (3..8 calls on one router, so that a failed encoding is followed by a successful one) of response helper calls: Context.Text/HTML/HTMLString/JSON/JSONBytes/JSONP/XML/Blob/Stream/NoContent/Redirect/HTTPError and pkg/render JSON/JSONIndented/JSONRenderer/JSONP/XML/XMLPretty/XMLRenderer/Text/HTML/Blob/Auto; statuses from {-1,0,100,...,599,600,701,999}; request methods GET, POST, PUT and HEAD (through the GET route); a third of the calls run behind pkg/handlers.Timeout(1h), a quarter behind a buffering middleware that replaced c.Resp and replays status and body; values: strings with HTML/unicode/control characters, nested maps, structs, byte slices and unencodable values (chan, func, NaN, map holding a channel); Stream readers with and without WriteTo, one-byte reads and a failing reader; preset or absent Content-Type; Accept lists with q-parameters, blanks, unsupported types (incl. text/html, for which Auto has no renderer, anywhere in the list). Oracle: recorded status == given (200 for <= 0), Content-Type == documented constant (or the preset one where the documentation says it is preserved), body decodes with an independent decoder to the given value, Auto renders the first supported type, encoding failures surface in c.Errors / the returned error and never panic. Non-trivial: every call; distinct by call description. Stream sources also include partly consumed strings/bytes readers and a SectionReader; an announced Content-Length must equal the delivered body length. A fifth of the encodable JSON calls follow a write of the handler itself (a prefix, an earlier line): the document is still delivered behind it. A quarter of the calls are served right after a request of the same router that left a writer of its own in c.Resp."
+	e.Rule = "short histories (3..8 calls on one router, so that a failed encoding is followed by a successful one) of response helper calls: Context.Text/HTML/HTMLString/JSON/JSONBytes/JSONP/XML/Blob/Stream/NoContent/Redirect/HTTPError and pkg/render JSON/JSONIndented/JSONRenderer/JSONP/XML/XMLPretty/XMLRenderer/Text/HTML/Blob/Auto; statuses from {-1,0,100,...,599,600,701,999}; request methods GET, POST, PUT and HEAD (through the GET route); a third of the calls run behind pkg/handlers.Timeout(1h), a quarter behind a buffering middleware that replaced c.Resp and replays status and body; values: strings with HTML/unicode/control characters, nested maps, structs, byte slices and unencodable values (chan, func, NaN, map holding a channel); Stream readers with and without WriteTo, one-byte reads and a failing reader; preset or absent Content-Type; Accept lists with q-parameters, blanks, unsupported types (incl. text/html, for which Auto has no renderer, anywhere in the list). Oracle: recorded status == given (200 for <= 0), Content-Type == documented constant (or the preset one where the documentation says it is preserved), body decodes with an independent decoder to the given value, Auto renders the first supported type, encoding failures surface in c.Errors / the returned error and never panic. Non-trivial: every call; distinct by call description. Stream sources also include partly consumed strings/bytes readers and a SectionReader; an announced Content-Length must equal the delivered body length. A fifth of the encodable JSON calls follow a write of the handler itself (a prefix, an earlier line): the document is still delivered behind it. A quarter of the calls are served right after a request of the same router that left a writer of its own in c.Resp. JSONP callbacks include bracket member access with quotes, an assignment target and $ names; they are delivered as given."
 	e.Assumptions = []string{
 		"values compared after decoding with encoding/json / encoding/xml (numbers as float64)",
 		"XML strings restricted to characters XML can carry",
